@@ -42,13 +42,22 @@ type Plan struct {
 	Dice      []float64     `json:"dice,omitempty"`
 	Horizon   time.Duration `json:"horizon"`
 	SnapEvery time.Duration `json:"snap_every"`
-	Hammers   []Hammer      `json:"hammers,omitempty"`
-	HangFor   time.Duration `json:"hang_for,omitempty"` // duration of a timed-out request (default 5s, the JetStream default wait)
-	Note      string        `json:"note,omitempty"`
+	// ExpirySlack: the store removes a record ExpirySlack later than its MaxAge says (nats-server's age timer
+	// is rounded up to 250ms when re-armed, and file storage adds the same: measured by C14)
+	ExpirySlack time.Duration `json:"expiry_slack,omitempty"`
+	Hammers     []Hammer      `json:"hammers,omitempty"`
+	HangFor     time.Duration `json:"hang_for,omitempty"` // duration of a timed-out request (default 5s, the JetStream default wait)
+	Note        string        `json:"note,omitempty"`
 	// NoQuiesce: the controller never calls synctest.Wait during the run (race-detector plans: since Go 1.25
 	// the detector models synctest.Wait as synchronisation with every goroutine of the bubble, which would
 	// hide races between activities separated by a controller step). No snapshots are taken then.
 	NoQuiesce bool `json:"no_quiesce,omitempty"`
+	// Lean (race-detector plans): the harness records nothing from library goroutines and takes no shared
+	// lock or shared read-modify-write on their return paths - logger and metrics are no-ops, callbacks are
+	// not recorded, a store operation returns to the library without touching shared harness state, API
+	// hammers do not synchronise with each other. Every such lock would be a happens-before edge between
+	// library goroutines that hides their unsynchronised accesses from the detector.
+	Lean bool `json:"lean,omitempty"`
 	// AllowUncleanRestart lets a plan Start an election object again after a stop call that returned while
 	// the object's goroutines were still running (regression plans of the known WaitGroup-reuse finding).
 	AllowUncleanRestart bool `json:"allow_unclean_restart,omitempty"`
@@ -123,6 +132,7 @@ const (
 	ActProbeDem   = "probedemote" // ValidateTokenOrDemote
 	ActSetHandler = "sethandler"  // re-register the callbacks (C20)
 	ActCancelCtx  = "cancelctx"   // cancel the context that was passed to the object's last Start (no Stop call)
+	ActCloseWatch = "closewatch"  // the store closes the update channels of the instance's open watchers (subscription closed)
 )
 
 type Action struct {
@@ -132,6 +142,9 @@ type Action struct {
 
 	// start
 	NewObject bool `json:"new_object,omitempty"`
+
+	// disconnect / reconnect / closed: notifications delivered back to back behind this one
+	Then []string `json:"then,omitempty"`
 
 	// stopctx
 	DeleteKey     bool          `json:"delete_key,omitempty"`
@@ -190,4 +203,12 @@ type Hammer struct {
 	N     int           `json:"n"`
 	Gap   time.Duration `json:"gap"`
 	Calls []string      `json:"calls"` // isleader leaderid token status validate validateordemote register
+}
+
+// StoreTTL is how long the simulated store keeps a message: the bucket's MaxAge plus the plan's expiry slack.
+func (p *Plan) StoreTTL() time.Duration {
+	if p.TTL <= 0 {
+		return p.TTL
+	}
+	return p.TTL + p.ExpirySlack
 }
